@@ -64,45 +64,6 @@ func verifC15_echo() {
 	vObserve("echo", vWireSummary(t.out))
 }
 
-// C15.isolate: one step of the Pong handler from an arbitrary set of registered pings (distinct symbolic payloads):
-// exactly the ping registered under the received payload is signalled, unknown payloads signal nothing.
-func verifC15_isolate() {
-	client := vParam("client", 1) == 1
-	vInstallRand()
-	n := 1 + vChoose("active", vParam("maxActive", 3))
-	klen := vChoose("klen", 3)
-	keys := make([][]byte, n)
-	chans := make([]chan struct{}, n)
-	for i := range keys {
-		keys[i] = vBytes("pk", klen)
-		for j := 0; j < i; j++ {
-			vAssume(vNot(vEqBytes(keys[i], keys[j])))
-		}
-	}
-	pong := vBytes("pong", klen)
-	f := vFrame{fin: true, opcode: 10, payload: pong, masked: !client}
-	if f.masked {
-		copy(f.key[:], vBytes("key", 4))
-	}
-	t := vNewTransport(vEncodeFrame(f))
-	c := vNewConn(t, client, nil, 16, 64)
-	for i := range keys {
-		chans[i] = make(chan struct{}, 1)
-		c.activePingsMu.Lock()
-		c.activePings[string(keys[i])] = chans[i]
-		c.activePingsMu.Unlock()
-	}
-	_, _, err := c.Reader(vBG)
-	vAssert(err != nil, "C15.isolate.read-ends")
-	vReach("C15.isolate.handled")
-	for i := range keys {
-		signalled := len(chans[i]) == 1
-		vAssert(signalled == vEqBytes(keys[i], pong), "C15.isolate.exact-match")
-	}
-	c.CloseNow()
-	vObserve("isolate", pong, len(chans[0]))
-}
-
 // C15.own: Ping returns nil only after a Pong carrying its own payload arrived; a foreign or withheld Pong
 // leaves it waiting until its context ends.
 func verifC15_own() {
@@ -118,10 +79,10 @@ func verifC15_own() {
 	// the peer answers (after it has seen the ping) with up to two pongs of symbolic one-byte payloads, or nothing
 	nPongs := vChoose("pongs", 3)
 	var in []vFrame
-	var payloads []byte
+	var payloads [][]byte
 	for i := 0; i < nPongs; i++ {
-		b := vBytes("pongp", 1)
-		payloads = append(payloads, b[0])
+		b := vBytes("pongp", 1+vChoose("pongLen", 2)) // one or two arbitrary bytes: "1", "01", "+1", ...
+		payloads = append(payloads, b)
 		in = append(in, mk(vFrame{fin: true, opcode: 10, payload: b}))
 	}
 	t := vNewTransport(vEncodeFrames(in))
@@ -145,7 +106,7 @@ func verifC15_own() {
 	// the first ping of a connection carries the payload "1"
 	matched := false
 	for _, p := range payloads {
-		matched = vOr(matched, p == '1')
+		matched = vOr(matched, vEqBytes(p, []byte("1")))
 	}
 	if err == nil {
 		vReach("C15.own.ping-ok")
@@ -163,5 +124,5 @@ func verifC15_own() {
 	rcancel()
 	<-readDone
 	c.CloseNow()
-	vObserve("own", err == nil, payloads)
+	vObserve("own", err == nil, len(payloads))
 }
